@@ -32,6 +32,18 @@ FAULTS = {
     "deeper-with-leading-space-then-tabs": ["%div", "\x01\t%p x"],
     "deeper-by-two-levels": ["%div", "\t\t%p x"],
     "deeper-by-three-levels": ["%div", "\t\t\t%p x"],
+    # known findings F41 / F40 (accepted today; the operators stay so that a repair, or a different wrong outcome, is seen)
+    "inline-children-command-and-nested": ["%p= @children", "\t%b nested"],
+    "void-tag-with-inline-children-command-and-nested": ["%br= @children", "\t%b nested"],
+    "deeper-by-two-levels-after-whitespace-only-line": ["%div", "\t", "\t\t%p x"],
+}
+
+# fault operator -> known finding under which its acceptance is listed (known_findings.json, property C10)
+KNOWN_ACCEPTED = {
+    "unterminated-attribute-list": "F36",
+    "inline-children-command-and-nested": "F41",
+    "void-tag-with-inline-children-command-and-nested": "F41",
+    "deeper-by-two-levels-after-whitespace-only-line": "F40",
 }
 
 
@@ -137,12 +149,14 @@ def run(chk):
                 if ri.cls != "done":
                     chk.violation("oracle", "fault %s: the compiler did not return (%s)" % (name, ri.cls), input_hex=hx(c), input_text=txt, fault=name)
                     continue
-                if ri.perr == "ok" and name == "unterminated-attribute-list":
-                    # known finding F36: a later '}' (the end of the template) closes the open list
+                if ri.perr == "ok" and name in KNOWN_ACCEPTED and any(
+                        kf["property"] == "C10" and kf["id"] == KNOWN_ACCEPTED[name] and kf["status"] == "open" for kf in common.load_known()):
+                    # known findings: F36 a later '}' (the end of the template) closes the open list; F41 an inline `= @children` does not
+                    # count as inline content; F40 a white-space-only line sets the indentation level
                     for kf in common.load_known():
-                        if kf["property"] == "C10" and kf["id"] == "F36" and kf["status"] == "open" and kf not in chk.known_seen:
+                        if kf["property"] == "C10" and kf["id"] == KNOWN_ACCEPTED[name] and kf["status"] == "open" and kf not in chk.known_seen:
                             chk.known_seen.append(kf)
-                    chk.count("known-F36")
+                    chk.count("known-" + KNOWN_ACCEPTED[name])
                     continue
                 if ri.perr == "ok":
                     chk.violation("oracle", "fault %s is accepted (mis-compiled) instead of being refused" % name, input_hex=hx(c), input_text=txt, fault=name)
